@@ -828,6 +828,7 @@ where
         let base = VRng::mix(hseed(&[ctx.seed, vi as u64, 0xA1E8]));
         let mut counts = vec![0u64; len];
         let mut bad: Option<String> = None;
+        let mut inconclusive = false;
         'outer: for i in 0..n {
             let w0 = ((((i << 32) + n - 1) / n) as u64 + 1) << 32;
             for t in 0..tot {
@@ -841,7 +842,8 @@ where
                     Ok(j) if j < len => {
                         counts[j] += 1;
                         if rng.call_words != 2 {
-                            bad = Some(format!("column {i}, level {t}: {} words consumed instead of 2", rng.call_words));
+                            // not the two-draw scheme the enumeration assumes: not judged here
+                            inconclusive = true;
                             break 'outer;
                         }
                     }
@@ -855,6 +857,10 @@ where
                     }
                 }
             }
+        }
+        if inconclusive {
+            ctx.class("c08:exact_pairs_not_applicable(draws are not two words)", 1);
+            continue;
         }
         pairs_total += (n * tot) as u64;
         ctx.eval((n * tot) as u64);
@@ -1789,6 +1795,7 @@ fn tree_exact_targets<W: Wt>(ctx: &Ctx, bits: u32) {
         let base = VRng::mix(hseed(&[ctx.seed, si as u64, 0xE7AD]));
         let mut counts = vec![0u64; model.len()];
         let mut bad: Option<String> = None;
+        let mut inconclusive = false;
         for t in 0..total {
             let v = ((t << bits) + total - 1) / total; // ceil(t * 2^b / total)
             let word = if bits == 32 { (v as u64) << 32 } else { v as u64 };
@@ -1799,7 +1806,9 @@ fn tree_exact_targets<W: Wt>(ctx: &Ctx, bits: u32) {
                 Ok(Ok(i)) if i < counts.len() => {
                     counts[i] += 1;
                     if rng.call_words != 1 {
-                        bad = Some(format!("target {t}: {} words consumed instead of 1", rng.call_words));
+                        // the enumeration assumes one uniform draw through one word (rand's random_range); a sampler
+                        // that draws differently is not judged by it (the frequency tests still apply)
+                        inconclusive = true;
                         break;
                     }
                 }
@@ -1812,6 +1821,10 @@ fn tree_exact_targets<W: Wt>(ctx: &Ctx, bits: u32) {
                     break;
                 }
             }
+        }
+        if inconclusive {
+            ctx.class("c10:exact_targets_not_applicable(draw is not one word)", 1);
+            continue;
         }
         targets_total += total as u64;
         ctx.eval(total as u64);
